@@ -90,6 +90,8 @@ def cases(tier, seed):
                        lim=lim, dt=float(10 ** rng.uniform(-2, -0.5)), Tend=float(rng.uniform(0.3, 2.0)), maxiter=int(rng.integers(1, 5)), spread=float(rng.uniform(0.5, 3.0)),
                        eseed=int(rng.integers(0, 2**31)), crash=bool(rng.random() < 0.7), _cost=30))
     for i in range(24 if tier == 'quick' else 300):
+        cs.append(dict(kind='variant', variant=['avoid', 'poly', 'poly_nomax', 'extrap', 'avoid', 'poly_nomax'][i % 6], which=(i // 6) % 3, e_tol=float(10 ** rng.uniform(-7, -3.5)), dt=float(10 ** rng.uniform(-2, -0.3)),
+                       maxiter=int(rng.integers(2, 6)), mr=int(rng.choice([10, 30])), seed=int(rng.integers(0, 2**31)), _cost=80))
         cs.append(dict(kind='real', which=i % 6, e_tol=float(10 ** rng.uniform(-7, -3)), procs=int(rng.choice([1, 1, 2, 3])), dt=float(10 ** rng.uniform(-2.5, -1)), seed=int(rng.integers(0, 2**31)), _cost=60))
     return cs
 
@@ -547,9 +549,99 @@ def run_real(case, r):
     r.sample = dict(case={k: v for k, v in case.items() if not k.startswith('_')}, blocks=len(blocks), restarts=sum(1 for b in blocks for e in b['post'] if e.get('restart')))
 
 
+def run_variant(case, r):
+    """error-based step-size controllers other than plain embedded adaptivity, and its optional modes: every ACCEPTED step
+    attempt must carry an error estimate <= e_tol (the run raises instead when the retry budget is exhausted), rejected
+    attempts are retried at the same start time, time advances otherwise.  One step per block."""
+    from pySDC.core.errors import ConvergenceError
+    from pySDC.implementations.controller_classes.controller_nonMPI import controller_nonMPI
+    from pySDC.implementations.convergence_controller_classes.adaptivity import Adaptivity, AdaptivityExtrapolationWithinQ, AdaptivityPolynomialError
+    from pySDC.implementations.convergence_controller_classes.basic_restarting import BasicRestartingNonMPI
+    from pySDC.implementations.problem_classes.Lorenz import LorenzAttractor
+    from pySDC.implementations.problem_classes.TestEquation_0D import testequation0d
+    from pySDC.implementations.problem_classes.Van_der_Pol_implicit import vanderpol
+    from pySDC.implementations.sweeper_classes.generic_implicit import generic_implicit
+
+    from vf.mon.tracehook import find_hook, make_trace_hook
+
+    variant, which, e_tol, dt, maxiter = case['variant'], case['which'], case['e_tol'], case['dt'], case['maxiter']
+    r.key = f'variant/{variant}/{which}/{e_tol:.2e}/{dt:.2e}/{maxiter}'
+    tag = r.key
+    field = 'error_extrapolation_estimate' if variant == 'extrap' else 'error_embedded_estimate'
+
+    def extra(ev, step, level_number):
+        if ev['cb'] == 'post_step':
+            L = step.levels[0]
+            ev['est'] = L.status.get(field)
+            ev['res'] = L.status.residual
+            ev['dt_new'] = L.status.dt_new
+
+    H = make_trace_hook(extra=extra)
+    if which == 0:
+        pc, pp, Tend = vanderpol, dict(mu=5.0, newton_tol=1e-12, newton_maxiter=100, u0=np.array([2.0, 0.0])), 0.6
+    elif which == 1:
+        pc, pp, Tend = LorenzAttractor, dict(newton_tol=1e-12, newton_maxiter=100), 0.2
+    else:
+        pc, pp, Tend = testequation0d, dict(lambdas=np.array([-5.0, -20.0 + 3j]), u0=1.0), 0.6
+    lp = dict(dt=dt, restol=-1)
+    if variant == 'avoid':
+        cc = {Adaptivity: dict(e_tol=e_tol, avoid_restarts=True)}
+    elif variant in ('poly', 'poly_nomax'):
+        lp['restol'] = 1e-11
+        cc = {AdaptivityPolynomialError: dict(e_tol=e_tol, restart_at_maxiter=(variant == 'poly'), interpolate_between_restarts=bool(case['seed'] % 2))}
+    else:
+        lp['restol'] = 1e-11
+        cc = {AdaptivityExtrapolationWithinQ: dict(e_tol=e_tol, restart_at_maxiter=bool(case['seed'] % 2))}
+    cc[BasicRestartingNonMPI] = dict(max_restarts=case['mr'])
+    desc = dict(problem_class=pc, problem_params=pp, sweeper_class=generic_implicit, sweeper_params=dict(num_nodes=3, quad_type='RADAU-RIGHT', QI=['IE', 'LU'][case['seed'] % 2]),
+                level_params=lp, step_params=dict(maxiter=maxiter), convergence_controllers=cc)
+    try:
+        ctrl = controller_nonMPI(1, dict(logger_level=50, dump_setup=False, hook_class=[H], mssdc_jac=False), desc)
+    except Exception as e:  # noqa
+        r.count('variant_rejected_at_construction')
+        r.observe('variant_rejected', f'{variant}:{type(e).__name__}')
+        r.check(True, 'noop', '')
+        return
+    install_block_counter(ctrl, {}, bound=3000)
+    hook = find_hook(ctrl, H)
+    P = ctrl.MS[0].levels[0].prob
+    raised = None
+    try:
+        with np.errstate(all='ignore'):
+            ctrl.run(P.u_exact(0.0), 0.0, Tend)
+    except ConvergenceError as e:
+        raised = e
+    except ProgressBound as e:
+        raised = e
+        r.count('runs_truncated_at_block_bound')
+    posts = [e for e in hook.events if e['cb'] == 'post_step']
+    pres = [e for e in hook.events if e['cb'] == 'pre_step']
+    nrej = 0
+    for i, e in enumerate(posts):
+        est = e.get('est')
+        if e.get('restart'):
+            nrej += 1
+            if i + 1 < len(pres):
+                r.check(pres[i + 1]['time'] == e['time'], 'restart-resumes-at-first-restarted-step', f'{tag}: attempt at t={e["time"]!r} rejected, next attempt starts at {pres[i + 1]["time"]!r}')
+            continue
+        if est is None:
+            r.count('accepted_without_estimate')
+            continue
+        r.check(est <= e_tol, 'accepted-step-within-tolerance', f'{tag}: step at t={e["time"]!r} (dt={e["dt"]:.3e}, {e["iter"]} iterations, residual {e.get("res")}) was accepted with {field}={est:.3e} > e_tol={e_tol:.3e}; retry budget not exhausted (no error raised)')
+        r.count('variant_accepted_steps')
+        if i + 1 < len(pres):
+            r.check(pres[i + 1]['time'] > e['time'], 'progress', f'{tag}: accepted step at t={e["time"]!r} followed by a step at {pres[i + 1]["time"]!r}')
+    r.count('variant_rejected_attempts', nrej)
+    if any(e['iter'] > maxiter for e in posts):
+        r.count('variant_steps_beyond_maxiter')
+    r.nontrivial = len(posts) > 0
+    r.observe('variant', f'{variant}:{type(raised).__name__ if raised else "ok"}')
+    r.sample = dict(case={k: v for k, v in case.items() if not k.startswith('_')}, attempts=len(posts), rejected=nrej)
+
+
 def run_case(case):
     r = Result(case)
-    dict(script=run_script, adapt=run_adapt, real=run_real)[case['kind']](case, r)
+    dict(script=run_script, adapt=run_adapt, real=run_real, variant=run_variant)[case['kind']](case, r)
     r.count('kind:' + case['kind'])
     return r
 
